@@ -129,7 +129,7 @@ def unwrap(v):
     return v.a if isinstance(v, MatElem) else v
 
 
-def algebra_series(inst, inj, poison=(), copies=None):
+def algebra_series(inst, inj, poison=(), copies=None, plain=False):
     """The Hamiltonian as a lazily defined BlockSeries of opaque algebra elements, already
     split into blocks: user callbacks = eval of a block term and the element product."""
     from pymablock.series import BlockSeries, zero
@@ -160,6 +160,9 @@ def algebra_series(inst, inj, poison=(), copies=None):
         if tuple(index[2:]) in poison:
             raise AssertionError(f"poisoned Hamiltonian term {index} was evaluated")
         blk = concrete.get(tuple(index))
+        if plain:
+            # "lazy_blocked": the same lazily defined, already blocked series, handing out plain arrays
+            return zero if blk is None else blk
         return zero if blk is None else MatElem(blk, inj)
 
     return BlockSeries(eval=ev, shape=(nb, nb), n_infinite=k, name="Huser"), concrete
@@ -247,12 +250,16 @@ def build(inst, inj, *, custom_solver=False, poison=(), copies=None, shared=None
     elif shared is not None:
         H, concrete = shared
     elif input_kind == "dict":
+        global _PRE_KINDS
         concrete = hermitian.concrete_hamiltonian(inst)
         H = concrete
+        _PRE_KINDS = {n: entry_kind(a) for n, a in concrete.items()}
     elif input_kind == "algebra":
         H, concrete = algebra_series(inst, inj, poison=poison, copies=copies)
     elif input_kind == "data_series":
         H, concrete = data_series(inst)
+    elif input_kind == "lazy_blocked":
+        H, concrete = algebra_series(inst, inj, poison=poison, copies=copies, plain=True)
     elif input_kind == "lazy_sympy":
         H, concrete = user_series(inst, inj, poison=poison, symbolic=True)
     elif input_kind == "lazy_implicit":
@@ -273,7 +280,7 @@ def build(inst, inj, *, custom_solver=False, poison=(), copies=None, shared=None
         eye = np.eye(d)
         kw["subspace_eigenvectors"] = [np.ascontiguousarray(eye[:, [i for i in range(d) if inst["sub_idx"][i] == b]])
                                        for b in range(nbk - 1)]
-    elif input_kind not in ("algebra", "data_series", "lazy_blocklists"):
+    elif input_kind not in ("algebra", "data_series", "lazy_blocklists", "lazy_blocked"):
         kw["subspace_indices"] = list(inst["sub_idx"])
     with warnings.catch_warnings():
         warnings.simplefilter("ignore")
@@ -311,7 +318,17 @@ def fresh_truth(inst, p, custom_solver=False):
     return truth, outs
 
 
-def fingerprint(concrete, p):
+def entry_kind(a):
+    from scipy import sparse
+
+    return type(a).__name__ + (":" + a.format if sparse.issparse(a) else "")
+
+
+# container types of the caller's dictionary entries as they were BEFORE block_diagonalize was called (dict input)
+_PRE_KINDS = None
+
+
+def fingerprint(concrete, p, kinds=None):
     from scipy import sparse
 
     from pymablock.series import zero
@@ -325,10 +342,13 @@ def fingerprint(concrete, p):
         if hasattr(a, "applyfunc"):            # sympy matrix
             fp.append([list(n), [[common.red_sympy(a[i, j], p) for j in range(a.shape[1])] for i in range(a.shape[0])]])
             continue
+        # the container type of the entry is part of the caller's data: an ndarray silently replaced by a
+        # sparse array of equal values (or a COO by a CSR array) is a modification of the caller's dictionary
+        kind = kinds[n] if kinds and n in kinds else entry_kind(a)
         a = a.toarray() if sparse.issparse(a) else a
         # algebra input: keys are (i, j, *n) block cells; the Trace_Engine record only
         # compares fingerprints for equality
-        fp.append([list(n), common.red_matrix(a, p)])
+        fp.append([list(n), common.red_matrix(a, p), kind])
     return fp
 
 
@@ -371,7 +391,7 @@ def run_schedule(inst, schedule, p, truth, sid, *, plan=None, custom_solver=Fals
         if failed:
             return finish(ses, sid, inst, fp0, p)
         concrete = shared[1]
-        fp0 = fingerprint(concrete, p)
+        fp0 = fingerprint(concrete, p, kinds=_PRE_KINDS if input_kind == "dict" else None)
         for (c, req) in schedule:
             cells = expand_request(req, inst)
             S = comps[c][req[0]]
